@@ -43,7 +43,7 @@ func c09Gen(c *vfCtx, emit func(c09Case)) {
 										continue
 									}
 									variant := (mask + fmask + cnt + sa) % 4
-									sc := vfCleanScenario{DirName: []string{"", "w.snap.d", "", ".snapshots"}[variant], Count: cnt, CI: ci, Sort: srt, Env: env, SFiles: map[string]string{}, Other: map[string]string{"notes.txt": "n", "snapnotes": "no dot"}, Dirs: []string{"d.snap"}}
+									sc := vfCleanScenario{DirSpell: []string{"", "", "slash", "dot"}[(mask+fmask+sa)%4], DirName: []string{"", "w.snap.d", "", ".snapshots"}[variant], Count: cnt, CI: ci, Sort: srt, Env: env, SFiles: map[string]string{}, Other: map[string]string{"notes.txt": "n", "snapnotes": "no dot"}, Dirs: []string{"d.snap"}}
 									var es []vfEntry
 									if mask&1 != 0 {
 										es = append(es, staleEntryChoices[0])
